@@ -50,6 +50,29 @@ func sameBytes(a, b [][]byte) bool {
 	return true
 }
 
+// takeFault arms the injected network fault (if any) on every object that receives the op, and returns the op-line suffix
+func (c *Case) takeFault() string {
+	nf := c.nf
+	c.nf = ""
+	for _, rc := range []*recorder{c.rc, c.specRc, c.shadowRc} {
+		if rc != nil {
+			rc.fault = nf
+		}
+	}
+	if nf == "" {
+		return ""
+	}
+	return " nf=" + nf
+}
+
+func (c *Case) clearFault() {
+	for _, rc := range []*recorder{c.rc, c.specRc, c.shadowRc} {
+		if rc != nil {
+			rc.fault = ""
+		}
+	}
+}
+
 // ---------------------------------------------------------------- instance mode
 
 func (c *Case) cmpSpec(opKind string, r instResult, timers string, s specResult) {
@@ -90,8 +113,10 @@ func (c *Case) cmpSpec(opKind string, r instResult, timers string, s specResult)
 }
 
 func (c *Case) applyInstStart(value []byte, h specqbft.Height) {
+	nf := c.takeFault()
+	defer c.clearFault()
 	r := c.instStart(c.inst, c.rc, value, h)
-	c.emit(fmt.Sprintf("start v=%d h=%d", c.in.Val(value), uint64(h)), r.line())
+	c.emit(fmt.Sprintf("start v=%d h=%d%s", c.in.Val(value), uint64(h), nf), r.line())
 	if c.spec != nil && !c.specOff {
 		c.cmpSpec("start", r, timersOf(c.rc.ev), c.specStart(value, h))
 	}
@@ -99,7 +124,9 @@ func (c *Case) applyInstStart(value []byte, h specqbft.Height) {
 
 func (c *Case) applyInstDeliver(enc []byte) instResult {
 	m := decodeMsg(enc)
-	line := "deliver " + c.absMsg(m)
+	nf := c.takeFault()
+	defer c.clearFault()
+	line := "deliver " + c.absMsg(m) + nf
 	r := c.instDeliver(c.inst, c.rc, m)
 	c.emit(line, r.line())
 	if c.spec != nil && !c.specOff {
@@ -109,8 +136,10 @@ func (c *Case) applyInstDeliver(enc []byte) instResult {
 }
 
 func (c *Case) applyInstTimeout() {
+	nf := c.takeFault()
+	defer c.clearFault()
 	r := c.instTimeout(c.inst, c.rc)
-	c.emit("timeout", r.line())
+	c.emit("timeout"+nf, r.line())
 	if c.spec != nil && !c.specOff {
 		c.cmpSpec("timeout", r, timersOf(c.rc.ev), c.specTimeout())
 	}
@@ -235,8 +264,10 @@ func (c *Case) cmpShadow(opKind string, m *specqbft.SignedMessage, r, s ctrlResu
 
 func (c *Case) applyCtrlStart(h specqbft.Height, value []byte) ctrlResult {
 	before := c.decidedMap()
+	nf := c.takeFault()
+	defer c.clearFault()
 	r := c.ctrlStart(c.ctrl, c.rc, h, value)
-	c.emit(fmt.Sprintf("cstart h=%d v=%d", uint64(h), c.in.Val(value)), r.line())
+	c.emit(fmt.Sprintf("cstart h=%d v=%d%s", uint64(h), c.in.Val(value), nf), r.line())
 	if c.c02 {
 		c.c02Check("cstart", nil, r, before)
 	}
@@ -247,7 +278,9 @@ func (c *Case) applyCtrlStart(h specqbft.Height, value []byte) ctrlResult {
 }
 
 func (c *Case) applyCtrlDeliver(m *specqbft.SignedMessage) ctrlResult {
-	line := "cdeliver " + c.absMsg(m)
+	nf := c.takeFault()
+	defer c.clearFault()
+	line := "cdeliver " + c.absMsg(m) + nf
 	enc, _ := m.Encode()
 	roundBefore, had := specqbft.Round(0), false
 	if inst := c.ctrl.StoredInstances.FindInstance(m.Message.Height); inst != nil {
@@ -273,8 +306,10 @@ func (c *Case) applyCtrlDeliver(m *specqbft.SignedMessage) ctrlResult {
 
 func (c *Case) applyCtrlTimeout(h specqbft.Height, round specqbft.Round) ctrlResult {
 	before := c.decidedMap()
+	nf := c.takeFault()
+	defer c.clearFault()
 	r := c.ctrlTimeout(c.ctrl, c.rc, h, round)
-	c.emit(fmt.Sprintf("ctimeout h=%d r=%d", uint64(h), uint64(round)), r.line())
+	c.emit(fmt.Sprintf("ctimeout h=%d r=%d%s", uint64(h), uint64(round), nf), r.line())
 	if c.c02 {
 		c.c02Check("ctimeout", nil, r, before)
 	}
